@@ -244,13 +244,25 @@ Proof. intros He. apply (parse_value_enc _ _ _ He). unfold enc_entry, max_depth.
 
 (* ---- extended responses: WhoAmI and StartTxn values are the raw UTF-8 octets; PasswordModify is SEQUENCE { [0] genPasswd } ---- *)
 Definition parse_utf8_val (v : bytes) : outcome bytes := if Utf8.valid v then Ok v else Panic.
-Definition parse_passmod_resp_t (t : tree) : outcome bytes :=
-  match t with C _ _ (P Context 0 g :: _) => if Utf8.valid g then Ok g else Panic | _ => Panic end.
+(* repair F39: genPasswd is OPTIONAL (RFC 3062); an empty SEQUENCE - the answer to a request that supplied the new password - yields an
+   empty gen_pass (as found: expect("element") panicked in the caller's task) *)
+Definition parse_passmod_resp_gen (f39 : bool) (t : tree) : outcome bytes :=
+  match t with C _ _ (P Context 0 g :: _) => if Utf8.valid g then Ok g else Panic | C _ _ [] => if f39 then Ok [] else Panic | _ => Panic end.
+Definition parse_passmod_resp_t := parse_passmod_resp_gen true.
 Definition parse_passmod_resp (v : bytes) : outcome bytes := parse_value parse_passmod_resp_t v.
 Theorem c19_whoami_resp v : Utf8.valid v = true -> parse_utf8_val v = Ok v.
 Proof. intros H. unfold parse_utf8_val. now rewrite H. Qed.
 Theorem c19_passmod_resp g bs : Utf8.valid g = true -> BerEnc (seq [P Context 0 g]) bs -> parse_passmod_resp bs = Ok g.
 Proof. intros H He. unfold parse_passmod_resp. rewrite (parse_value_enc _ _ _ He) by (cbn; unfold max_depth; lia). cbn. now rewrite H. Qed.
+Theorem c19_passmod_resp_absent bs : BerEnc (seq []) bs -> parse_passmod_resp bs = Ok [].
+Proof. intros He. unfold parse_passmod_resp. rewrite (parse_value_enc _ _ _ He) by (cbn; unfold max_depth; lia). reflexivity. Qed.
+Lemma c19_refuted_F39 : parse_value (parse_passmod_resp_gen false) [x30; x00] = Panic /\ parse_passmod_resp [x30; x00] = Ok [].
+Proof. vm_compute. split; reflexivity. Qed.
+(* known finding F40: the hypothesis [Utf8.valid] of c19_whoami_resp and c19_passmod_resp is where C19 stops for StartTxn and PasswordModify.
+   A transaction identifier (RFC 5805) and a generated password (RFC 3062) are OCTET STRINGs of any content; the structs hold Strings,
+   and the parsers panic on anything else *)
+Lemma c19_refuted_F40 : parse_utf8_val [xff] = Panic /\ parse_passmod_resp [x30; x03; x80; x01; xff] = Panic.
+Proof. vm_compute. split; reflexivity. Qed.
 Print Assumptions c19_paged_response_bytes.
 
 (* ---- what the unchanged library builds for each request control and extended operation (last probe of round 0), on the model ---- *)
